@@ -384,6 +384,7 @@ type c02CredPlan struct {
 	BadSig  bool
 	Revoked bool
 	Seq     int // makes the credential id unique within the case
+	NoID    bool // the credential has no id at all
 
 	built *vc.VerifiableCredential
 }
@@ -408,11 +409,13 @@ func (fx *c02Fixture) buildCredential(x *h.Ctx, p *c02CredPlan, now time.Time) v
 	tmpl := vc.VerifiableCredential{
 		Context:           []ssi.URI{vc.VCContextV1URI(), credential.NutsV1ContextURI},
 		Type:              []ssi.URI{vc.VerifiableCredentialTypeV1URI(), ssi.MustParseURI("NutsEmployeeCredential")},
-		ID:                &id,
 		Issuer:            iss.did.URI(),
 		IssuanceDate:      issued,
 		ExpirationDate:    &expires,
 		CredentialSubject: []interface{}{subject},
+	}
+	if !p.NoID {
+		tmpl.ID = &id
 	}
 	signer := c02Signer{forge: p.BadSig}
 	var out *vc.VerifiableCredential
@@ -462,6 +465,22 @@ type c02VPPlan struct {
 	Nonce     *string
 	Created   time.Duration  // offset from "now"
 	Expires   *time.Duration // offset from "now"; nil = absent
+	// Extra: members the presentation data model does not know. JWT: members of the 'vp' claim (covered by the holder's
+	// signature like everything else); JSON-LD: added to the signed document (terms outside the context)
+	Extra []*c02Extra
+}
+
+// extraValue renders the value of an extra member
+func (fx *c02Fixture) extraValue(x *h.Ctx, e *c02Extra, now time.Time) any {
+	cred := fx.buildCredential(x, e.Cred, now)
+	var v any
+	b, err := json.Marshal(cred) // JWT credential: a JSON string; JSON-LD credential: the object
+	x.NoErr(err, "marshal extra member")
+	x.NoErr(json.Unmarshal(b, &v), "extra member json")
+	if e.Arr {
+		return []any{v}
+	}
+	return v
 }
 
 func (fx *c02Fixture) buildPresentation(x *h.Ctx, p *c02VPPlan, now time.Time) vc.VerifiablePresentation {
@@ -488,6 +507,10 @@ func (fx *c02Fixture) buildPresentation(x *h.Ctx, p *c02VPPlan, now time.Time) v
 	if (p.IatOnly || p.AudString || p.AudList != nil) && p.Format == vc.JWTPresentationProofFormat && p.Tamper == "" {
 		return fx.buildRawJWTPresentation(x, p, creds, now)
 	}
+	if len(p.Extra) > 0 && p.Format == vc.JWTPresentationProofFormat {
+		// (the node wallet cannot be asked for further members of the 'vp' claim)
+		return fx.buildRawJWTPresentation(x, p, creds, now)
+	}
 	if p.AudList != nil && len(p.AudList) > 0 {
 		opts.ProofOptions.Domain = c02Ptr(p.AudList[0])
 	}
@@ -505,6 +528,16 @@ func (fx *c02Fixture) buildPresentation(x *h.Ctx, p *c02VPPlan, now time.Time) v
 		vp, err = vc.ParseVerifiablePresentation(raw)
 		x.NoErr(err, "parse tampered presentation")
 	}
+	if len(p.Extra) > 0 {
+		doc := map[string]any{}
+		x.NoErr(json.Unmarshal([]byte(vp.Raw()), &doc), "ld presentation json")
+		for _, e := range p.Extra {
+			doc[e.Name] = fx.extraValue(x, e, now)
+		}
+		b, _ := json.Marshal(doc)
+		vp, err = vc.ParseVerifiablePresentation(string(b))
+		x.NoErr(err, "parse presentation with extra members")
+	}
 	return *vp
 }
 
@@ -514,15 +547,26 @@ func (fx *c02Fixture) buildPresentation(x *h.Ctx, p *c02VPPlan, now time.Time) v
 func (fx *c02Fixture) buildRawJWTPresentation(x *h.Ctx, p *c02VPPlan, creds []vc.VerifiableCredential, now time.Time) vc.VerifiablePresentation {
 	signer := c02Keys[p.Signer]
 	holderURI := signer.did.URI()
+	var vpClaim any = vc.VerifiablePresentation{
+		Context:              []ssi.URI{vc.VCContextV1URI()},
+		Type:                 []ssi.URI{vc.VerifiablePresentationTypeV1URI()},
+		Holder:               &holderURI,
+		VerifiableCredential: creds,
+	}
+	if len(p.Extra) > 0 {
+		m := map[string]any{}
+		b, err := json.Marshal(vpClaim)
+		x.NoErr(err, "marshal vp claim")
+		x.NoErr(json.Unmarshal(b, &m), "vp claim json")
+		for _, e := range p.Extra {
+			m[e.Name] = fx.extraValue(x, e, now)
+		}
+		vpClaim = m
+	}
 	claims := map[string]interface{}{
 		"sub": signer.did.String(),
 		"jti": fmt.Sprintf("%s#vp-%d", signer.did.String(), now.UnixNano()),
-		"vp": vc.VerifiablePresentation{
-			Context:              []ssi.URI{vc.VCContextV1URI()},
-			Type:                 []ssi.URI{vc.VerifiablePresentationTypeV1URI()},
-			Holder:               &holderURI,
-			VerifiableCredential: creds,
-		},
+		"vp":  vpClaim,
 	}
 	if p.IatOnly {
 		claims["iat"] = now.Add(p.Created).Unix()
@@ -533,6 +577,8 @@ func (fx *c02Fixture) buildRawJWTPresentation(x *h.Ctx, p *c02VPPlan, creds []vc
 		claims["nonce"] = *p.Nonce
 	}
 	switch {
+	case p.Tamper == "retarget":
+		claims["aud"] = []string{"https://elsewhere.example/oauth2/verifier"} // signed for another audience, rewritten below
 	case p.AudList != nil:
 		claims["aud"] = p.AudList
 	case p.Aud != nil && p.AudString:
@@ -552,6 +598,9 @@ func (fx *c02Fixture) buildRawJWTPresentation(x *h.Ctx, p *c02VPPlan, creds []vc
 	_ = hdr.Set("kid", signer.kid)
 	tok, err := jws.Sign(payload, jws.WithKey(jwa.ES256, key, jws.WithProtectedHeaders(hdr)))
 	x.NoErr(err, "sign raw jwt presentation")
+	if p.Tamper != "" {
+		tok = []byte(c02Tamper(x, string(tok), p.Tamper, p.Aud))
+	}
 	vp, err := vc.ParseVerifiablePresentation(string(tok))
 	x.NoErr(err, "parse raw jwt presentation")
 	return *vp
